@@ -83,12 +83,96 @@ pub fn gen_cfg(rng: &mut Rng, allow_sizes: &[usize]) -> String {
     t.join(" ")
 }
 
-pub fn eval(_op: &str, _a: &[&str]) -> Option<String> {
-    None
+/// every public constructor of `rpm::Dependency`, by its Rust name (the scraped table `Gen.depCtorNames` must list the same)
+const CTORS: &[&str] = &[
+    "any", "eq", "less", "less_eq", "greater", "greater_eq", "rpmlib", "config", "user", "group", "script_pre", "script_post",
+    "script_preun", "script_postun",
+];
+const KINDS: &[&str] = &["prov", "req", "conf", "obs", "rec", "sug", "enh", "sup"];
+
+fn make_dep(ctor: &str, name: &str, version: &str) -> Option<rpm::Dependency> {
+    use rpm::Dependency as D;
+    Some(match ctor {
+        "any" => D::any(name),
+        "eq" => D::eq(name, version),
+        "less" => D::less(name, version),
+        "less_eq" => D::less_eq(name, version),
+        "greater" => D::greater(name, version),
+        "greater_eq" => D::greater_eq(name, version),
+        "rpmlib" => D::rpmlib(name, version),
+        "config" => D::config(name, version),
+        "user" => D::user(name),
+        "group" => D::group(name),
+        "script_pre" => D::script_pre(name),
+        "script_post" => D::script_post(name),
+        "script_preun" => D::script_preun(name),
+        "script_postun" => D::script_postun(name),
+        _ => return None,
+    })
+}
+
+fn triple(d: &rpm::Dependency) -> String {
+    format!("{},{},{}", hx(d.name.as_bytes()), d.flags.bits(), hx(d.version.as_bytes()))
+}
+
+/// `dep CTOR KIND NAME VERSION`: construct, hand to the builder under KIND, build, write, parse, read back the first item
+fn dep_op(ctor: &str, kind: &str, name: &str, version: &str) -> String {
+    let d = match make_dep(ctor, name, version) { Some(d) => d, None => return "unknown-ctor".into() };
+    let made = triple(&d);
+    let b = rpm::PackageBuilder::new("p", "1.0", "MIT", "noarch", "s").compression(rpm::CompressionType::None).source_date(1_600_000_000u32);
+    let b = match kind {
+        "prov" => b.provides(d), "req" => b.requires(d), "conf" => b.conflicts(d), "obs" => b.obsoletes(d),
+        "rec" => b.recommends(d), "sug" => b.suggests(d), "enh" => b.enhances(d), "sup" => b.supplements(d),
+        _ => return "bad-kind".into(),
+    };
+    let back = (|| -> Result<String, rpm::Error> {
+        let p = b.build()?;
+        let mut w = Vec::new();
+        p.write(&mut w)?;
+        let m = rpm::PackageMetadata::parse(&mut &w[..])?;
+        let l = match kind {
+            "prov" => m.get_provides()?, "req" => m.get_requires()?, "conf" => m.get_conflicts()?, "obs" => m.get_obsoletes()?,
+            "rec" => m.get_recommends()?, "sug" => m.get_suggests()?, "enh" => m.get_enhances()?, _ => m.get_supplements()?,
+        };
+        Ok(l.first().map(triple).unwrap_or_else(|| "missing".into()))
+    })()
+    .unwrap_or_else(|_| "err".into());
+    format!("ctor={} back={}", made, back)
+}
+
+pub fn eval(op: &str, a: &[&str]) -> Option<String> {
+    match op {
+        "dep" => {
+            let name = String::from_utf8(unhx(a[2])).ok()?;
+            let version = String::from_utf8(unhx(a[3])).ok()?;
+            Some(dep_op(a[0], a[1], &name, &version))
+        }
+        "depctors" => Some(CTORS.join(",")),
+        _ => None,
+    }
 }
 
 pub fn gen(ctx: &mut Ctx) {
     let (_si, sn) = ctx.shard;
+    if _si == 0 {
+        // the public Dependency constructors: every constructor under every builder method, then every constructor over
+        // names (empty, blanks, non-ASCII, parentheses) × versions with the method rotating
+        ctx.req("depctors");
+        for c in CTORS {
+            for k in KINDS {
+                ctx.req(&format!("dep {} {} {} {}", c, k, hx(b"wget"), hx(b"1.0")));
+            }
+        }
+        let mut i = 0usize;
+        for c in CTORS {
+            for n in ["", "x", "libfoo.so.1()(64bit)", "a b", "ünï", "config(x)"] {
+                for v in ["", "2:3.4-5", "1.0~rc1"] {
+                    ctx.req(&format!("dep {} {} {} {}", c, KINDS[i % KINDS.len()], hx(n.as_bytes()), hx(v.as_bytes())));
+                    i += 1;
+                }
+            }
+        }
+    }
     let n = ctx.q(300u64, 5_000) / sn;
     let sizes = [0usize, 1, 2, 3, 4, 5, 13, 100, 4096, 70_000];
     for _ in 0..n {
